@@ -1,6 +1,8 @@
 """C05 — viewshed marks a cell visible exactly when the line-of-sight model says so.
 Correspondence: xrspatial.viewshed (NumPy backend: event generation, lexsort, radial sweep over the
-array-encoded red-black tree) vs the extracted Coq model coq/C05 (abstract status structure);
+array-encoded red-black tree) vs the extracted Coq model coq/C05 (abstract status structure); the jitted tree
+functions driven directly vs BOTH the abstract structure and the concrete red-black tree model coq/C05/Tree.v (node arrays
+compared row by row);
 oracle: an independent pure-Python O(n^2) line-of-sight reference written from the property text."""
 import math
 from math import atan, fabs, sqrt
@@ -24,12 +26,31 @@ RULE = ('(a) terrains built to drive the status tree through its hard cases — 
         '_max_grad_in_status_struct driven directly with operation sequences (ascending/descending/random insert and delete '
         'orders, sliding windows, evens-then-odds, churn; up to 89 live nodes; gradient patterns incl. ties and spikes) with '
         'three queries after every operation whose gradients are taken around the min-gradients of live and of just-deleted '
-        'nodes (stale augmented maxima), compared with the extracted abstract status structure and a brute-force oracle.')
+        'nodes (stale augmented maxima), compared with the extracted abstract status structure, a brute-force oracle, and the '
+        'extracted CONCRETE tree model (Tree.v): new root and freed row of every insert/delete, the float returned by every '
+        'query, and snapshots of the complete node arrays (every row ever handed out plus the dummy root and the NIL row: '
+        'key, payload, cached maximum, colour, left/right/parent) after every update of short sequences and at ~48 evenly '
+        'spaced points of long ones.')
 TRUSTED = [
-    'NOT verified: that the array-encoded red-black tree of viewshed.py:93-704 (parent pointers, sentinel row, augmented '
-    'subtree maxima, successor-swapping delete) refines the abstract status structure of coq/C05/Sweep.v (finite map key -> '
-    'node with insert / delete_key / two-phase query). It is tied to it only by this correspondence run (Prop '
-    'rbtree_refines_status_statement in Props.v is stated and unclaimed).',
+    'the red-black tree of viewshed.py:93-732 is modelled line by line in coq/C05/Tree.v (finite map row id -> node record; '
+    'NIL_ID = -1 is an ordinary row whose colour / cached maximum are read and whose parent field is written, as in the '
+    'code; explicit fuel for every loop). Modelled, not verified: NumPy row storage and Numba\'s negative-index wrap '
+    '(row -1 = last row); the places where the code would read row num_nodes (NIL\'s initial links) are out-of-bounds reads '
+    'in the jitted code and stop the model (guards in _left_rotate/_right_rotate with a NIL pivot or child, '
+    '_rb_insert_fixup with a NIL grandparent, _delete_from_tree emptying the tree); the print() in phase 2 of the query is '
+    'not modelled; _tree_successor is modelled by the only branch its call site can reach (_tree_minimum of the right child); '
+    'row ids come from the idle stack of _viewshed_cpu_sweep modelled as a list',
+    'PROVED about that concrete model (PropsTree.v, closed under the global context): both rotations and the whole '
+    '_rb_insert_fixup loop preserve the tree invariant (links and parent pointers encode a binary tree, distinct ids, every '
+    'cached maximum = maximum of min3 over its subtree, NIL cached maximum = SMALLEST_GRAD), the in-order sequence and all '
+    'keys/payloads. NOT proved for all inputs: the descent/attach and upward maximum propagation of _insert_into_tree, '
+    '_delete_from_tree (successor copy, its three maximum-repair loops, _rb_delete_fixup), the two-phase query, i.e. the '
+    'composite statement that the concrete tree refines the abstract status structure of Sweep.v (Props '
+    'tree_refines_status_full_statement / rbtree_refines_status_statement, unclaimed) — covered by the bounded theorem '
+    'C05_bounded_tree_refines_small and by correspondence (real tree vs concrete model row by row; real tree vs abstract '
+    'structure)',
+    'premises of the tree theorems: > on gradients is a strict weak order on the whole gradient type (asymmetric, '
+    '"not >" transitive) — true for binary64 off NaN; SMALLEST_GRAD <= min3 of every node is part of the invariant',
     'the query is modelled as a decision (exists a nearer node with min3 > g, or with interpolated gradient > g) instead of '
     'the running maximum started at SMALLEST_GRAD=-1e22 and the final test max <= g; identical for NaN-free gradients '
     '>= -1e22 (all gradients are atan values). Phase 1 of the code consults only the nodes on the left of the search path '
@@ -54,10 +75,14 @@ ASSUMPTIONS = [
     'no two simultaneously active cells have equal squared distance (the model reports DUPKEY; counted, expected 0)',
 ]
 PARTIAL = [
-    'rbtree_refines_status_statement (the array red-black tree with augmented maxima implements the abstract status '
-    'structure: insert / delete / query commute with a representation relation): stated in Props.v as an unclaimed Prop; '
-    'covered only by the correspondence runs (whole viewshed on tree-stressing terrains, and the tree functions driven '
-    'directly with operation sequences against the extracted abstract structure)',
+    'tree_refines_status_full_statement / rbtree_refines_status_statement (the concrete red-black tree model of Tree.v '
+    'implements the abstract status structure for every operation sequence: insert / delete / query commute with the '
+    'in-order abstraction): stated in PropsTree.v / Props.v, unclaimed. Proved parts: C05_tree_left_rotate_preserves, '
+    'C05_tree_right_rotate_preserves, C05_tree_insert_fixup_preserves (partial correctness: conditional on the model '
+    'returning Some, i.e. no out-of-bounds guard and enough fuel). Bounded part: C05_bounded_tree_refines_small '
+    '(vm_compute, integer instance: every sequence of <= 6 inserts/deletes, keys 1..5, gradients {0,1}; in-order sequence '
+    '= sorted abstract status and 14 queries after every prefix). Not proved for all inputs: BST descent + attach and '
+    'ins_up of insert, all of delete, the query, fuel sufficiency, red-black balance (not needed for correctness)',
     'C05_sweep_eq_spec is conditional on the sweep not leaving the modelled domain (result inr _: no duplicate active key, '
     'no delete of an absent key); that this never happens for real grids is checked per case by the extracted model '
     '(DUPKEY / NOTFOUND counters), not proved',
@@ -72,11 +97,20 @@ LEVEL_TEXT = ('Proved for all inputs (any grid size, any terrain/observer/height
               'sweep = O(n^2) reference (C05_sweep_eq_spec_full unconditional on interpolation facts; C05_sweep_eq_spec with '
               'the clean property statement under phase1_sound/own_span), that the stable insertion sort yields an '
               'inversion-free permutation under a strict weak order, and the 0..180 / level=90 range of the vertical angle '
-              'over the reals. Not proved: the red-black tree refinement (correspondence only) and float rounding facts. '
-              'Correspondence: viewshed() vs extracted model, visible mask and angles bit-exact; oracle: independent Python reference.')
+              'over the reals. The red-black tree itself is now inside the model (coq/C05/Tree.v, line-by-line): proved for all '
+              'sizes/inputs that _left_rotate, _right_rotate and the whole _rb_insert_fixup loop preserve the tree invariant '
+              '(well-formed links, every cached maximum = subtree maximum), the in-order sequence and all keys/payloads '
+              '(C05_tree_left_rotate_preserves, C05_tree_right_rotate_preserves, C05_tree_insert_fixup_preserves). Bounded '
+              '(vm_compute; every sequence of <= 6 inserts/deletes over keys 1..5, gradients {0,1}, 14 queries after every '
+              'prefix): concrete tree = abstract status structure (C05_bounded_tree_refines_small). Not proved for all inputs: '
+              'insert descent/attach, delete, query of the concrete tree (full refinement statement unclaimed) and float '
+              'rounding facts. Correspondence: viewshed() vs extracted model, visible mask and angles bit-exact; the jitted '
+              'tree functions vs the concrete tree model (node arrays row by row, query floats) and vs the abstract structure; '
+              'oracle: independent Python reference.')
 LEVEL_NOTE = ('Trusted: Coq kernel, extraction (ExtrOcamlBasic + ExtrOCamlFloats), the OCaml driver handing Stdlib.atan to '
-              'the model, the abstract-status reading of the red-black tree (stress-tested, not proved), float order laws as '
-              'premises, the Python harness and oracle.')
+              'the model, the refinement concrete red-black tree model -> abstract status structure (rotations and insert '
+              'fix-up proved, the rest bounded + stress-tested), the line-by-line reading of the jitted tree code as Tree.v '
+              '(compared row by row on every run), float order laws as premises, the Python harness and oracle.')
 
 PI = math.pi
 
